@@ -35,6 +35,7 @@ type chainCase struct {
 	NF       []hspec   `json:"notfound_handlers,omitempty"`
 	Action   *hspec    `json:"action,omitempty"`
 	NotFound bool      `json:"request_unrouted,omitempty"` // drive the not-found chain
+	Method   string    `json:"method,omitempty"`           // GET (default) | HEAD | POST: for HEAD no body byte is forwarded, yet a body write still counts as "written"
 }
 
 func init() {
@@ -95,6 +96,7 @@ func genChainCase(r *rand.Rand) *chainCase {
 		h := genHspec(r)
 		c.Action = &h
 	}
+	c.Method = []string{"GET", "GET", "GET", "HEAD", "HEAD", "POST"}[r.Intn(6)]
 	if r.Intn(6) == 0 {
 		c.NotFound = true
 		for i := r.Intn(3); i > 0; i-- {
@@ -129,11 +131,19 @@ func (c *chainCase) chain() []*hspec {
 	return out
 }
 
+func (c *chainCase) method() string {
+	if c.Method == "" {
+		return "GET"
+	}
+	return c.Method
+}
+
 type chainSentinel struct{ why string }
 
 // ---- statement-level interpreter ---------------------------------------------
 
 type chainSim struct {
+	head      bool
 	chain     []*hspec
 	next      int
 	written   bool
@@ -153,6 +163,9 @@ func (s *chainSim) header(code int) {
 
 func (s *chainSim) write(b string) {
 	s.header(200)
+	if s.head {
+		return // HEAD: the status is committed, no body byte is forwarded
+	}
 	s.body.WriteString(b)
 	s.tr = append(s.tr, "spy:W"+b)
 }
@@ -378,7 +391,7 @@ func chainVerdict(c *chainCase, obsTr []string, obsStatus int, obsBody string, o
 		return reenter
 	}
 	chain := c.chain()
-	sim := &chainSim{chain: chain}
+	sim := &chainSim{chain: chain, head: c.Method == "HEAD"}
 	var simPanic interface{}
 	func() {
 		defer func() { simPanic = recover() }()
@@ -440,7 +453,7 @@ func judgeChain(w *core.W, c *chainCase) {
 				rhs = append(rhs, x.mk(ridx, &c.RH[i]))
 				ridx++
 			}
-			f.Get("/x", rhs...)
+			f.Route(c.method(), "/x", rhs)
 			return
 		}
 		var ghs []flamego.Handler
@@ -463,7 +476,7 @@ func judgeChain(w *core.W, c *chainCase) {
 		target = "/nowhere"
 	}
 	spy := &chainSpy{hdr: http.Header{}, tr: &x.tr}
-	req := (&http.Request{Method: "GET", URL: &url.URL{Path: target}, Header: http.Header{}, RequestURI: target}).WithContext(ctx)
+	req := (&http.Request{Method: c.method(), URL: &url.URL{Path: target}, Header: http.Header{}, RequestURI: target}).WithContext(ctx)
 	var pan interface{}
 	func() {
 		defer func() { pan = recover() }()
@@ -511,6 +524,9 @@ func judgeChain(w *core.W, c *chainCase) {
 	if c.NotFound {
 		w.Count("not-found-chain")
 	}
+	if c.Method == "HEAD" && spy.status != 0 {
+		w.Count("head-request-written")
+	}
 	if pan != nil {
 		w.Count("panic-unwound")
 	}
@@ -551,7 +567,7 @@ func runC03(r *core.Run) {
 		judgeChain(w, c)
 	})
 	r.Gate("distinct_nontrivial", r.NonTrivialCount(), 2000)
-	for _, k := range []string{"nil-action-reached", "not-found-chain", "panic-unwound", "next-twice-in-one-handler", "cancel-executed", "cancel-of-replaced-request-context"} {
+	for _, k := range []string{"nil-action-reached", "not-found-chain", "panic-unwound", "next-twice-in-one-handler", "cancel-executed", "cancel-of-replaced-request-context", "head-request-written"} {
 		r.GateCounter(k, 50)
 	}
 }
